@@ -58,8 +58,10 @@ ASSUMPTIONS = {'C08': ['OpenMP prange interleavings cannot be owned by the simul
 SHRINK_ORDER = ['ops', 'sched', 'cfg', 'data']
 
 KINDS = ['mass2d', 'stiff2d', 'mass3d', 'stiff3d', 'divdiv2d', 'l2f2d',
-         'mass1d', 'conv2d', 'field2d', 'vec21', 'pg2d', 'bdry2d', 'fun2d', 'vec22p']
-COMPILED = ['mass1d', 'conv2d', 'field2d', 'vec21', 'pg2d', 'bdry2d', 'fun2d', 'vec22p']
+         'mass1d', 'conv2d', 'field2d', 'vec21', 'pg2d', 'bdry2d', 'fun2d', 'vec22p',
+         'fieldgrad2d', 'vfun2d', 'divdiv3d', 'fieldvec2d']
+COMPILED = ['mass1d', 'conv2d', 'field2d', 'vec21', 'pg2d', 'bdry2d', 'fun2d', 'vec22p', 'fieldgrad2d', 'vfun2d',
+            'fieldvec2d']
 ONDEMAND = ['conv2d', 'field2d', 'mass2d']
 
 
@@ -90,6 +92,26 @@ def make_form(kind):
         u, v = V.basisfuns()
         f = V.input('f', updatable=True)
         V.add((f * u * v + 0.5 * inner(grad(u), grad(v))) * dx)
+        return V
+    if kind == 'fieldgrad2d':
+        # one updatable field used through its value AND its gradient (two array variables)
+        V = VForm(2)
+        u, v = V.basisfuns()
+        f = V.input('f', updatable=True)
+        V.add((f * u * v + inner(grad(f), grad(u)) * v) * dx)
+        return V
+    if kind == 'fieldvec2d':
+        # updatable field in a vector-valued form
+        V = VForm(2)
+        u, v = V.basisfuns(components=(2, 2))
+        f = V.input('f', updatable=True)
+        V.add((f * inner(u, v) + div(u) * div(v)) * dx)
+        return V
+    if kind == 'vfun2d':
+        V = VForm(2, arity=1)
+        v = V.basisfuns(components=(2,))
+        f = V.input('f', updatable=True)
+        V.add(f * (v[0] + 2.0 * v[1]) * dx)
         return V
     if kind == 'vec21':
         V = VForm(2)
@@ -324,7 +346,8 @@ class Case:
         self.dim, self.kvs, self.geo, self.desc = make_space(ctx, kind)
         s = ctx.ch.stream('cfg')
         shipped = {'mass2d': 'MassAssembler2D', 'stiff2d': 'StiffnessAssembler2D', 'mass3d': 'MassAssembler3D',
-                   'stiff3d': 'StiffnessAssembler3D', 'divdiv2d': 'DivDivAssembler2D', 'l2f2d': 'L2FunctionalAssembler2D'}
+                   'stiff3d': 'StiffnessAssembler3D', 'divdiv2d': 'DivDivAssembler2D', 'l2f2d': 'L2FunctionalAssembler2D',
+                   'divdiv3d': 'DivDivAssembler3D'}
         if kind in shipped:
             self.cls = getattr(assemblers, shipped[kind])
             self.cls_od = pc.compile_vform(make_form(kind), on_demand=True) if kind in ONDEMAND else None
@@ -340,14 +363,15 @@ class Case:
         self.boundary = None
         if kind == 'bdry2d':
             self.boundary = [(0, 0), (0, 1), (1, 0), (1, 1)][s.choice(4)]
-        self.arity = 1 if kind in ('l2f2d', 'fun2d') else 2
-        self.vector = kind in ('divdiv2d', 'vec21', 'vec22p')
-        self.symmetric_form = kind in ('mass1d', 'mass2d', 'mass3d', 'stiff2d', 'stiff3d', 'divdiv2d', 'field2d', 'bdry2d', 'vec22p')
+        self.arity = 1 if kind in ('l2f2d', 'fun2d', 'vfun2d') else 2
+        self.vector = kind in ('divdiv2d', 'vec21', 'vec22p', 'divdiv3d', 'fieldvec2d')
+        self.symmetric_form = kind in ('mass1d', 'mass2d', 'mass3d', 'stiff2d', 'stiff3d', 'divdiv2d', 'field2d', 'bdry2d',
+                                       'vec22p', 'divdiv3d', 'fieldvec2d')
         self._ref = {}
 
     def args(self, st):
         a = {'geo': self.geo}
-        if self.kind in ('field2d', 'fun2d', 'l2f2d'):
+        if self.kind in ('field2d', 'fun2d', 'l2f2d', 'fieldgrad2d', 'vfun2d', 'fieldvec2d'):
             a['f'] = self.fields[st['f']]
         if self.kind == 'conv2d':
             a['a'] = st['a']
@@ -457,7 +481,7 @@ def _run(ctx, kind, fam, ctl):
     o = ctx.ch.stream('ops')
     data = ctx.ch.stream('data')
     st = dict(case.state)
-    nthreads = [1, 2, 3, 5, 7, 16][o.choice(6)]
+    nthreads = [1, 2, 3, 5, 7, 16, 0][o.choice(7)] or (1 + o.choice(17))
     pyiga.set_max_threads(nthreads)
     asm = case.instantiate(st)
     m, n = case.shape()
@@ -487,7 +511,7 @@ def _run(ctx, kind, fam, ctl):
         ops = [('assemble', 6), ('threads', 2)]
         if case.arity == 2:
             ops += [('subset', 4), ('entry', 1)]
-        if kind in ('field2d', 'fun2d'):
+        if kind in ('field2d', 'fun2d', 'fieldgrad2d', 'vfun2d', 'fieldvec2d'):
             ops += [('update', 3), ('wrapper', 2)]
         if kind in ('conv2d', 'vec22p'):
             ops += [('update_params', 3)]
@@ -498,7 +522,7 @@ def _run(ctx, kind, fam, ctl):
         op = o.weighted(ops)
         R = case.reference(st)
         if op == 'threads':
-            nthreads = [1, 2, 3, 5, 7, 16, max(1, m), m + 1, 4 * m][o.choice(9)]
+            nthreads = [1, 2, 3, 5, 7, 16, max(1, m), m + 1, 4 * m, 0, 0, 0][o.choice(12)] or (1 + o.choice(17))
             pyiga.set_max_threads(nthreads)
             ctx.log(['set_max_threads', nthreads])
             ctx.count('op.set_max_threads')
@@ -555,7 +579,11 @@ def _run(ctx, kind, fam, ctl):
             if A is RAISED():
                 return
             if case.arity == 1:
-                cmp_exact(np.asarray(A), R, 'vector-differs', 'assembled vector differs from the reference')
+                want = R
+                if kind == 'vfun2d' and layout == 'blocked':
+                    want = np.moveaxis(R, -1, 0)        # documented: component axis first in the blocked layout
+                cmp_exact(np.asarray(A), want, 'vector-differs', 'assembled vector (layout %s) differs from the reference' % layout,
+                          layout=layout)
                 continue
             D = todense(A)
             if case.vector:
@@ -635,6 +663,10 @@ def _run(ctx, kind, fam, ctl):
                 return
             updated = True
             R = case.reference(st)
+            if kind == 'vfun2d':
+                R = np.moveaxis(R, -1, 0)
+            elif case.vector:
+                R = blocked_dense(R)[1]
             cmp_exact(todense(A) if case.arity == 2 else np.asarray(A), R, 'wrapper-differs',
                       'Assembler(...).assemble(f=...) differs from constructing afresh')
             ctx.count('op.wrapper')
